@@ -1746,6 +1746,109 @@ impl<const N: usize> sscli__PayloadCodec<N> {
         }
     }
 
+//@@ octo-squirrel/src/config.rs:18-30  enum Mode  sha=957f62c1c01193ba
+#[derive(Clone, Copy, PartialEq)]
+pub enum cfg__Mode {
+    Tcp,
+    Udp,
+    TcpAndUdp,
+    Quic,
+    TcpAndQuic,
+}
+spec fn serde_names__Mode(v: cfg__Mode) -> Seq<Seq<char>> {
+    match v {
+        cfg__Mode::Tcp => seq!["tcp"@],
+        cfg__Mode::Udp => seq!["udp"@],
+        cfg__Mode::TcpAndUdp => seq!["tcp_and_udp"@],
+        cfg__Mode::Quic => seq!["quic"@],
+        cfg__Mode::TcpAndQuic => seq!["tcp_and_quic"@],
+    }
+}
+spec fn serde_other__Mode(v: cfg__Mode) -> bool {
+    match v {
+        cfg__Mode::Tcp => false,
+        cfg__Mode::Udp => false,
+        cfg__Mode::TcpAndUdp => false,
+        cfg__Mode::Quic => false,
+        cfg__Mode::TcpAndQuic => false,
+    }
+}
+
+//@@ octo-squirrel/src/config.rs:32-44  impl Mode  sha=211fcf0f0c602cbb
+impl cfg__Mode {
+    fn enable_tcp(&self) -> bool {
+        matches!(self, Self::Tcp | Self::TcpAndUdp | Self::TcpAndQuic)
+    }
+
+    fn enable_udp(&self) -> bool {
+        matches!(self, Self::Udp | Self::TcpAndUdp)
+    }
+
+    fn enable_quic(&self) -> bool {
+        matches!(self, Self::Quic | Self::TcpAndQuic)
+    }
+}
+
+//@@ octo-squirrel/src/protocol.rs:14-20  enum Protocol  sha=f4fd8332bf4085d1
+#[derive(PartialEq, Clone, Copy)]
+pub enum Protocol {
+    Shadowsocks,
+    VMess,
+    Trojan,
+}
+spec fn serde_names__Protocol(v: Protocol) -> Seq<Seq<char>> {
+    match v {
+        Protocol::Shadowsocks => seq!["shadowsocks"@],
+        Protocol::VMess => seq!["vmess"@],
+        Protocol::Trojan => seq!["trojan"@],
+    }
+}
+spec fn serde_other__Protocol(v: Protocol) -> bool {
+    match v {
+        Protocol::Shadowsocks => false,
+        Protocol::VMess => false,
+        Protocol::Trojan => false,
+    }
+}
+
+//@@ octo-squirrel/src/codec/aead.rs:124-142  enum CipherKind  sha=0afd87d0c4335287
+#[derive(Default, Clone, Copy, PartialEq, Eq)]
+pub enum cfgk__CipherKind {
+    Aes128Gcm,
+    Aes256Gcm,
+    ChaCha20Poly1305,
+    Aead2022Blake3Aes128Gcm,
+    Aead2022Blake3Aes256Gcm,
+    Aead2022Blake3ChaCha8Poly1305,
+    Aead2022Blake3ChaCha20Poly1305,
+    #[default]
+    Unknown,
+}
+spec fn serde_names__CipherKind(v: cfgk__CipherKind) -> Seq<Seq<char>> {
+    match v {
+        cfgk__CipherKind::Aes128Gcm => seq!["aes-128-gcm"@],
+        cfgk__CipherKind::Aes256Gcm => seq!["aes-256-gcm"@],
+        cfgk__CipherKind::ChaCha20Poly1305 => seq!["chacha20-poly1305"@, "chacha20-ietf-poly1305"@],
+        cfgk__CipherKind::Aead2022Blake3Aes128Gcm => seq!["2022-blake3-aes-128-gcm"@],
+        cfgk__CipherKind::Aead2022Blake3Aes256Gcm => seq!["2022-blake3-aes-256-gcm"@],
+        cfgk__CipherKind::Aead2022Blake3ChaCha8Poly1305 => seq!["2022-blake3-chacha8-poly1305"@],
+        cfgk__CipherKind::Aead2022Blake3ChaCha20Poly1305 => seq!["2022-blake3-chacha20-poly1305"@],
+        cfgk__CipherKind::Unknown => seq!["Unknown"@],
+    }
+}
+spec fn serde_other__CipherKind(v: cfgk__CipherKind) -> bool {
+    match v {
+        cfgk__CipherKind::Aes128Gcm => false,
+        cfgk__CipherKind::Aes256Gcm => false,
+        cfgk__CipherKind::ChaCha20Poly1305 => false,
+        cfgk__CipherKind::Aead2022Blake3Aes128Gcm => false,
+        cfgk__CipherKind::Aead2022Blake3Aes256Gcm => false,
+        cfgk__CipherKind::Aead2022Blake3ChaCha8Poly1305 => false,
+        cfgk__CipherKind::Aead2022Blake3ChaCha20Poly1305 => false,
+        cfgk__CipherKind::Unknown => false,
+    }
+}
+
 //@@ octo-squirrel/src/protocol/shadowsocks.rs:27-47  mod aead / fn openssl_bytes_to_key  sha=7641dae4dfdc4611
 fn ssaeadk__openssl_bytes_to_key<const N: usize>(password: &[u8]) -> [u8; N] {
         let mut encoded: [u8; N] = [0; N];
@@ -1781,24 +1884,6 @@ fn ss22k__password_to_keys<const N: usize>(password: &str) -> Result<([u8; N], V
         let enc_key = identity_keys.remove(identity_keys.len() - 1);
         Ok((enc_key, identity_keys))
     }
-
-//@@ octo-squirrel/src/protocol.rs:14-20  enum Protocol  sha=f4fd8332bf4085d1
-#[derive(Clone, Copy)]
-pub enum Protocol {
-    Shadowsocks,
-    VMess,
-    Trojan,
-}
-
-//@@ octo-squirrel/src/config.rs:18-30  enum Mode  sha=957f62c1c01193ba
-#[derive(Clone, Copy)]
-pub enum cfg__Mode {
-    Tcp,
-    Udp,
-    TcpAndUdp,
-    Quic,
-    TcpAndQuic,
-}
 
 //@@ octo-squirrel/src/config.rs:64-84  struct ServerConfig  sha=4a1981ff06f0d60b
 pub struct ServerConfig<S: Clone + Default> {
@@ -1909,6 +1994,19 @@ impl<const N: usize> ServerContext<N> {
         }
     }
 
+//@@ octo-squirrel-server/src/server/shadowsocks.rs:172-175  struct UdpAssociate  sha=9a4a81ec24ed2a1c
+struct UdpAssociate<const N: usize> {
+    task: JoinHandle<()>,
+    sender: Sender<(BytesMut, Address, udp__Session<N>)>,
+}
+
+//@@ octo-squirrel-server/src/server/shadowsocks.rs:177-181  impl UdpAssociate {fn try_send}  sha=c27fafa573386ec8
+impl<const N: usize> UdpAssociate<N> {
+    fn try_send(&self, msg: (BytesMut, Address, udp__Session<N>), Tracked(vlog): Tracked<&mut AssocLog>) -> Result<(), mpsc::error::SendError<(BytesMut, Address, udp__Session<N>)>> {
+        self.sender.send(msg, Tracked(vlog))
+    }
+}
+
 //@@ octo-squirrel-server/src/server/shadowsocks.rs:190-199  struct UdpAssociateContext  sha=78838acd7ad7e4db
 struct UdpAssociateContext<const N: usize> {
     client_session_id: u64,
@@ -1919,6 +2017,107 @@ struct UdpAssociateContext<const N: usize> {
     server_session_id: u64,
     server_packet_id: u64,
     user: Option<Arc<ServerUser<N>>>,
+}
+
+//@@ octo-squirrel-server/src/server/shadowsocks.rs:304-306  mod udp / fn new_codec  sha=310cf0e86d70ac1a
+fn new_codec<'a, const N: usize>(config: &ServerConfig<SslConfig>, context: udp__Context<'a, N>) -> anyhow::Result<udp__SessionCodec<'a, N>> {
+        Ok(udp__SessionCodec::<'a, N>::new(context, udp__AEADCipherCodec::new(config.cipher)))
+    }
+
+//@@ octo-squirrel-server/src/server/shadowsocks.rs:396-400  mod tcp / impl From for PayloadCodec  sha=2594280010b53db2
+impl<const N: usize> From<&ServerContext<N>> for sssrv__PayloadCodec<N> {
+        fn from(value: &ServerContext<N>) -> Self {
+            Self::new(value.0.clone(), Mode::Server, None)
+        }
+    }
+
+//@@ octo-squirrel-server/src/server/shadowsocks.rs:84-170  fn startup_udp  sha=eea43b948751bef5
+fn startup_udp<const N: usize>(config: &ServerConfig<SslConfig>, user_manager: &Arc<ServerUserManager<N>>, Tracked(vlog): Tracked<&mut AssocLog>) -> anyhow::Result<()> {
+    if !config.mode.enable_udp() && !config.mode.enable_quic() {
+        return Ok(());
+    }
+    if config.mode.enable_udp() {
+        let (key, identity_keys) = if config.cipher.is_aead_2022() {
+            ss22k__password_to_keys(&config.password).map_err(|e| verif_err())?
+        } else {
+            (ssaeadk__openssl_bytes_to_key(config.password.as_bytes()), Vec::with_capacity(0))
+        };
+        let context = udp__Context::new(Mode::Server, Some(user_manager.clone()), &key, &identity_keys);
+        let codec = new_codec::<N>(config, context)?;
+        let inbound = UdpSocket::bind(verif_string())?;
+        let (tx, mut rx) = mpsc::channel::<(BytesMut, Address, SocketAddr, udp__Session<N>)>(1024);
+        let ttl = Duration::from_secs(300);
+        let mut net_map: LruCache<u64, UdpAssociate<N>> = LruCache::with_expiry_duration_and_capacity(ttl, 10240);
+        let mut cleanup_timer = time::interval(ttl);
+        /*R2*/
+        let mut buf = [0; 0x10000];
+        loop {
+            match verif_select(3) {
+                0 => { let _ = cleanup_timer.tick(); {
+                    net_map.iter();
+                } }
+                // p_s_c
+                1 => { let peer_msg = rx.recv(Tracked(vlog)); {
+                    if let Some((content, peer_addr, client_addr, session)) = peer_msg {
+                        net_map.get(&session.client_session_id); // keep alive
+                        let mut dst = BytesMut::new();
+                        if let Err(e) = udp__SessionCodec::encode(&codec, (content, peer_addr, session), &mut dst) {
+                            ()
+                        } else {
+                            inbound.send_to(&dst, client_addr, Tracked(vlog))?;
+                        }
+                    } else {
+                        /*R2*/
+                        break;
+                    }
+                } }
+                // c_s_p
+                _ => { let client_msg = inbound.recv_from(&mut buf, Tracked(vlog)); {
+                    match client_msg {
+                        Ok((len, client_addr)) => {
+                            let mut src = BytesMut::from(&buf[..len]);
+                            match udp__SessionCodec::<N>::decode(&codec, &mut src) {
+                                Ok(Some((content, peer_addr, session))) => {
+                                    let key = session.client_session_id;
+                                    // an association whose task has ended (unresolvable or unreachable target) is replaced, never fatal for the service
+                                    if net_map.get(&key).is_some_and(|assoc| assoc.task.is_finished()) {
+                                        net_map.remove(&key);
+                                    }
+                                    if let Some(assoc) = net_map.get_mut(&key) {
+                                        if let Err(e) = assoc.try_send((content, peer_addr, session), Tracked(vlog)) {
+                                            /*R2*/
+                                            net_map.remove(&key);
+                                        }
+                                    } else {
+                                        match UdpAssociateContext::create(&session, client_addr, tx.clone()) {
+                                            Ok(assoc) => {
+                                                if let Err(e) = assoc.try_send((content, peer_addr, session), Tracked(vlog)) {
+                                                    /*R2*/
+                                                } else {
+                                                    net_map.insert(key, assoc);
+                                                }
+                                            }
+                                            Err(e) => (),
+                                        }
+                                    }
+                                }
+                                Ok(None) => {}
+                                Err(e) => (),
+                            }
+                        }
+                        Err(e) => {
+                            /*R2*/
+                        }
+                    }
+                } }
+            }
+        }
+        /*R2*/
+        Ok(())
+    } else {
+        let context: ServerContext<N> = ServerContext::init(config, user_manager.clone())?;
+        startup_quic(context, config, |c| Ok(sssrv__PayloadCodec::from(c)))
+    }
 }
 
 //@@ octo-squirrel-server/src/server/shadowsocks.rs:201-296  impl UdpAssociateContext {fn relay,fn validate_packet_id}  sha=83f5dd0af9b9d8fe
